@@ -17,6 +17,7 @@ structure DriverState where
   logidx : LogIndex.State := {}
   evmtx : EvmTx.State × EvmTx.View := default
   sdb : SDB.S := {}
+  msgtree : MsgTree.State := {}
 
 def splitArgs (line : String) : List String :=
   (line.trimAscii.toString.splitOn " ").filter (· ≠ "")
@@ -49,6 +50,9 @@ def stepLine (st : DriverState) (line : String) : DriverState × String :=
   | "sdb" :: args =>
     let (s', out) := SDB.step {} st.sdb args
     ({ st with sdb := s' }, out)
+  | "msgtree" :: args =>
+    let (s', out) := MsgTree.step (MsgTree.guardOfFacts Generated.commissionDecoratorCases) st.msgtree args
+    ({ st with msgtree := s' }, out)
   | "oracle" :: args => (st, Oracle.step args)
   | "infl" :: args =>
     let (s', out) := Inflation.step st.infl args
